@@ -13,15 +13,16 @@ import (
 // the expressions bound to op, prefix, topic and the delimiter constant, and
 // the String parameters of the enclosing method (the prefix variables).
 type site struct {
-	Lang   string
-	File   string
-	Line   int
-	Kind   string // pub | sub | sub2
-	Params []string
-	Op     string
-	Prefix string
-	Topic  string
-	Delim  string
+	Lang                                  string
+	File                                  string
+	Line                                  int
+	Kind                                  string // pub | sub | sub2
+	Method                                string // the method name after publish / subscribe / _publish
+	Params                                []string
+	Op                                    string
+	Prefix                                string
+	Topic                                 string
+	Delim                                 string
 	HasOp, HasPrefix, HasDelim, HasHeader bool
 }
 
@@ -74,7 +75,7 @@ func extractJava(path string) ([]site, error) {
 			continue
 		}
 		if m := javaHeader.FindStringSubmatch(line); m != nil {
-			cur = site{Lang: "java", File: path, HasHeader: true}
+			cur = site{Lang: "java", File: path, HasHeader: true, Method: m[2]}
 			cur.Kind = "pub"
 			parts := splitParams(m[3])
 			if m[1] == "subscribe" {
@@ -132,7 +133,7 @@ func extractDart(path string) ([]site, error) {
 			continue
 		}
 		if m := dartHeader.FindStringSubmatch(line); m != nil {
-			cur = site{Lang: "dart", File: path, HasHeader: true, Kind: "pub"}
+			cur = site{Lang: "dart", File: path, HasHeader: true, Kind: "pub", Method: m[2]}
 			parts := splitParams(m[3])
 			if m[1] == "subscribe" {
 				cur.Kind = "sub"
